@@ -2,10 +2,11 @@
 C11 - translator tie: the bodies of the pure integer functions of rig/geometry.py are regenerated
 from the source into `Gen/PyFun.lean` on every run; here they are proved EQUAL to the hand-written
 model functions the C11 theorems are about.  For these functions the tie to the code is a
-kernel-checked obligation, not a sample.
+kernel-checked obligation, not a sample.  Likewise `Links.opposite` and `Links.from_vector` (rig/links.py).
 -/
 import RigModel.Model.C11
 import RigModel.Gen.PyFun
+import Mathlib.Tactic.SplitIfs
 set_option linter.unusedSimpArgs false
 set_option linter.unusedVariables false
 set_option linter.unusedTactic false
@@ -50,5 +51,31 @@ theorem gen_torus_len (s d : V3) (w h : Int) (hw : w ≠ 0) (hh : h ≠ 0) :
     torusLen s d w h = .ok (PyFun.shortest_torus_path_length (t3 s) (t3 d) w h) := by
   have : ¬ (w = 0 ∨ h = 0) := by simp [hw, hh]
   simp only [torusLen, this, if_false, gen_torus_len_is_model]
+
+/-! ### rig/links.py -/
+
+/-- `Links.opposite` as written in the source (`Links((self + 3) % 6)`, the enum lookup never fails)
+= the model -/
+theorem gen_links_opposite (l : Nat) : PyFun.Links_opposite l = .ok ((opposite l : Nat) : Int) := by
+  simp only [PyFun.Links_opposite, opposite, Int.fmod_eq_emod_of_nonneg _ (by decide : (0 : Int) ≤ 6)]
+  split
+  · first | rfl | (refine congrArg Except.ok ?_; omega)
+  · rename_i h
+    simp only [List.contains_eq_mem, List.mem_cons, List.mem_nil_iff, or_false, decide_eq_true_eq] at h
+    omega
+
+/-- the model's result as the Python value: member value / KeyError -/
+def optExc : Option Nat → Except String Int
+  | some l => .ok (l : Int)
+  | none => .error "KeyError"
+
+/-- `Links.from_vector` as written in the source = the model -/
+theorem gen_links_from_vector (x y : Int) : PyFun.Links_from_vector (x, y) = optExc (fromVector x y) := by
+  have hx : x ≤ -2 ∨ x = -1 ∨ x = 0 ∨ x = 1 ∨ 2 ≤ x := by omega
+  have hy : y ≤ -2 ∨ y = -1 ∨ y = 0 ∨ y = 1 ∨ 2 ≤ y := by omega
+  simp only [PyFun.Links_from_vector, fromVector, lookupDir]
+  rcases hx with hx | rfl | rfl | rfl | hx <;> rcases hy with hy | rfl | rfl | rfl | hy <;>
+    (try simp (config := {decide := true}) only []) <;> (try split_ifs) <;>
+    first | omega | rfl | decide
 
 end Rig.C11
